@@ -2,6 +2,7 @@
 from ..report import Report, Violation
 from ..explorer import pmap
 from ..families import f0
+from .. import simcheck
 
 
 def main(tier, seed):
@@ -32,11 +33,17 @@ def main(tier, seed):
             rep.add_violations([Violation("F0-stateless", "state-outside-bfs", f"DAG {d}: stateless depth-{depth} run reached states the BFS did not: {sorted(r['states'] - b['states'])[:3]}", dict(parents=d), [], family="F0")])
     rep.part("F0-stateless", depth=depth, sequences=sum(r["executions"] for r in res2))
     rep.cov["bounds"] = dict(dag_nodes=3, stateless_depth=depth)
+    rep.cov["rule"] += "; " + simcheck.RULE["F1"] + "; " + simcheck.RULE["F2"] + "; " + simcheck.RULE["F5"] + " (DAG-shape spaces): every logged transition legal, refused requests leave no trace, completed is final, an operator is in at most one live container"
+    simcheck.run_f1(rep, "C02", tier)
+    simcheck.run_f2(rep, "C02", tier)
+    simcheck.run_f5(rep, "C02", tier, ["dag:naive", "dag:overbook", "dag:priority", "dag:priority-pool"], seed)
     rep.sample(dict(dag_parents=ds[7], example_history=[[0, "assigned"], [0, "running"], [1, "assigned"], [1, "running (refused: parent not completed)"]]))
     return rep.finish()
 
 
 def replay(rec):
+    if rec.get("family") != "F0":
+        return simcheck.replay(rec)
     sc = rec["scenario"]
     p, ops = f0.build(sc["parents"])
     p.runtime_status()
